@@ -13,7 +13,7 @@ RULE = ("seeded random update/query sequences against pyrates.backend.base.base_
         "non-trivial if it has >= 20 updates and >= 10 interior queries; distinct = distinct (shape, dtype, length, "
         "seed) signature")
 DECIDING = ['queries_between', 'queries_at', 'queries_before', 'queries_after', 'growth_events', 'mutation_checks',
-            'bounded_raise_checks', 'insitu_queries', 'result_mutation_checks', 'integer_initial_state', 'refused_malformed_updates']
+            'bounded_raise_checks', 'insitu_queries', 'result_mutation_checks', 'integer_initial_state', 'refused_malformed_updates', 'sequences_with_array_time']
 ASSUMPTIONS = ['update times strictly increasing (as the property states)', 'finite values only']
 CASE_TIMEOUT = 300
 
@@ -32,7 +32,7 @@ def plan(tier, seed):
             length = rnd.choice([5, 30, 200, 1023, 1024, 1025, 2049, 4097, 9000, 20000]) if r < 0.7 else rnd.randint(1, 20000)
         cases.append({'family': 'main', 'kind': 'seq', 'cseed': rnd.randrange(1 << 30), 'shape': list(rnd.choice(shapes)),
                       'dtype': rnd.choice(dtypes), 'length': length, 'bounded': rnd.random() < 0.25,
-                      'int_y0': rnd.random() < 0.15,
+                      'int_y0': rnd.random() < 0.15, 'array_time': rnd.random() < 0.2,
                       'tstyle': rnd.choice(['uniform', 'jitter', 'tiny', 'huge', 'negative_start'])})
     # in-situ cases: a real DDE run with the monitored history class
     m = 6 if tier == 'quick' else 60
@@ -196,7 +196,15 @@ def run_seq(case, mech):
                         return f'query t={tq!r} after a refused update (state of shape {bad.shape} instead of {shape}): {msg}'
             else:
                 return f'update with a state of shape {bad.shape} was accepted by a history of shape {shape}'
-        h.update(t, y)
+        if case.get('array_time'):
+            # the caller keeps the time in ONE 0-d array that it advances in place (a hand-written stepping loop)
+            if k == 0:
+                tcell = np.array(float(t))
+                mech['sequences_with_array_time'] = mech.get('sequences_with_array_time', 0) + 1
+            tcell[...] = t
+            h.update(tcell, y)
+        else:
+            h.update(t, y)
         sh.update(t, y)
         mech['updates'] = mech.get('updates', 0) + 1
         if y.shape and rnd.random() < 0.3:
